@@ -9,6 +9,7 @@
  * (a stack value used only as an argument; never issued, never retired). */
 struct Tok { int64_t id; int64_t val; char* payload; };
 extern var Tok;
+#define TOK_REFUSED 666666   /* Tok_Assign raises ValueError for this value */
 #define TOK_T(v) $(Tok, 0, (v), NULL)
 
 long tok_live(void);
